@@ -504,7 +504,9 @@ impl<'a> Gen<'a> {
                 }),
                 t if t.is_numeric() => {
                     if t.is_signed_or_float() && self.p.chance(1, 5) {
-                        return Some(Expr::Neg(Box::new(self.expr(t, known, d))));
+                        // the operand of unary minus is checked without an expected type
+                        let _ = known;
+                        return Some(Expr::Neg(Box::new(self.expr(t, false, d))));
                     }
                     let ops: &[Op] = if self.in_const {
                         &[Op::Add, Op::Sub, Op::Mul]
